@@ -2,3 +2,5 @@
 import RB.Util.Driver
 import RB.Model.Stats
 import RB.Proofs.C15
+import RB.Model.Builds
+import RB.Proofs.C13
